@@ -950,3 +950,74 @@ func TestFinding112_StyleValueKeepsItsQuotes(t *testing.T) {
 		t.Errorf("style value with quotes: %q %v", got, err)
 	}
 }
+
+// row 114 — C10.R12: map keys that print alike have one order
+func TestFinding114_KeysThatPrintAlikeHaveOneOrder(t *testing.T) {
+	seen := map[string]bool{}
+	for i := 0; i < 60; i++ {
+		var buf bytes.Buffer
+		data := map[string]any{"m": map[any]any{1: "int", "1": "str", int64(1): "i64", 1.0: "f"}}
+		if err := vuego.New().Fill(data).RenderString(context.Background(), &buf, `<li v-for="v in m">{{ v }}</li>`); err != nil {
+			t.Fatal(err)
+		}
+		seen[buf.String()] = true
+	}
+	if len(seen) != 1 {
+		t.Errorf("%d distinct outputs for one input", len(seen))
+	}
+}
+
+// row 115 — C11.R23: struct data that shares substructure is converted in linear time
+type f115N struct {
+	Name        string
+	Left, Right *f115N
+}
+
+func TestFinding115_SharedSubstructureIsConvertedOnce(t *testing.T) {
+	var next *f115N
+	for i := 0; i < 40; i++ {
+		next = &f115N{Name: "n", Left: next, Right: next}
+	}
+	done := make(chan string, 1)
+	go func() {
+		var buf bytes.Buffer
+		err := vuego.New().Fill(next).RenderString(context.Background(), &buf, `<p>{{ Name }} {{ Left.Right.Name }}</p>`)
+		done <- fmt.Sprint(buf.String(), err)
+	}()
+	select {
+	case got := <-done:
+		if !strings.Contains(got, "<p>n n</p>") {
+			t.Errorf("shared substructure: %s", got)
+		}
+	case <-time.After(20 * time.Second):
+		t.Errorf("shared substructure: did not return within 20s")
+	}
+}
+
+// rows 116, 117 — C13.R28: a nil pointer in the error result is no error; C13.R29: a number that does not fit the parameter
+type f116Err struct{}
+
+func (*f116Err) Error() string { return "myerr" }
+
+func TestFinding116_117_ErrorPointerAndOverflow(t *testing.T) {
+	funcs := vuego.FuncMap{
+		"okfn": func(s string) (string, *f116Err) { return "fine:" + s, nil },
+		"i8":   func(n int8) int8 { return n },
+	}
+	render := func(tpl string) (string, error) {
+		var buf bytes.Buffer
+		err := vuego.New(vuego.WithFuncs(funcs)).Fill(map[string]any{"name": "a", "n": 300, "s": "300", "small": 100}).RenderString(context.Background(), &buf, tpl)
+		return buf.String(), err
+	}
+	if out, err := render(`<p>[{{ name | okfn }}]</p>`); err != nil || !strings.Contains(out, "[fine:a]") {
+		t.Errorf("nil *f116Err result: %q %v", out, err)
+	}
+	for _, tpl := range []string{`<p>{{ n | i8 }}</p>`, `<p>{{ s | i8 }}</p>`} {
+		if out, err := render(tpl); err == nil {
+			t.Errorf("%s: wrapped around instead of failing: %q", tpl, out)
+		}
+	}
+	if out, err := render(`<p>{{ small | i8 }}</p>`); err != nil || !strings.Contains(out, "<p>100</p>") {
+		t.Errorf("a number that fits: %q %v", out, err)
+	}
+}
